@@ -513,7 +513,7 @@ func checkC17(c *Ctx, w *World) {
 				}
 			}
 			for _, l := range loopsOf(ic) {
-				if inner != nil && l != inner && l.Blocks[inner.Header] && (outer == nil || len(l.Blocks) < len(outer.Blocks)) {
+				if inner != nil && l.Header != inner.Header && l.Blocks[inner.Header] && (outer == nil || len(l.Blocks) < len(outer.Blocks)) {
 					outer = l
 				}
 			}
